@@ -14,15 +14,22 @@ import EudoxiaModel.Proofs.NaiveExample
 import EudoxiaModel.Proofs.PrioBudget
 import EudoxiaModel.Proofs.PriorityLoop
 import EudoxiaModel.Proofs.PriorityExample
+import EudoxiaModel.Proofs.PoolLoop
+import EudoxiaModel.Proofs.PoolExample
+import EudoxiaModel.Proofs.GatesSusp
+import EudoxiaModel.Proofs.PrioMulti
+import EudoxiaModel.Proofs.PrioMultiExample
 /-! # C08 — shipped schedulers decide admissibly, and the closed loop of scheduler and executor runs to the end without raising
 
 `partial`.  Proved for every world and queue state: one round of `priority` / `priority-pool` asks each pool for no more CPU and RAM than the pool has free
 (so `verify_valid_assignment` accepts the round), every assignment was built by the checked `Assignment` constructor (operators PENDING/FAILED with
 parents satisfied, each assigned once), `priority` names only suspendable containers; the executor raises only at its gates.  Proved over whole runs
 (scheduler and executor in closed loop, any number of ticks, any arrivals): naive in both container modes, overbook (`C18`), and `priority` with
-single-operator containers.  Not proved: whole runs of `priority` with multi-operator containers (where it pre-empts) and of `priority-pool` — for the
-latter the statement is false for the shipped code in single-operator mode (known finding D11).  Helper lemmas: `Proofs/PrioBudget.lean`,
-`Proofs/PriorityLoop.lean`, `Proofs/Naive*.lean`, `Proofs/Progress.lean`. -/
+single-operator containers, `priority` with multi-operator containers (where it pre-empts: suspension requests, write-outs, re-queued suspended work), and
+`priority-pool` with multi-operator containers — every shipped scheduler in every container mode but one.  For `priority-pool` with single-operator containers the statement is false for the shipped code (known finding D11).  Helper lemmas: `Proofs/PrioBudget.lean`,
+`Proofs/PriorityLoop.lean`, `Proofs/PrioMulti.lean`, `Proofs/PoolLoop.lean`, `Proofs/Naive*.lean`, `Proofs/Progress.lean`, `Proofs/Dead*.lean`, `Proofs/Cids.lean`.
+`partial` remains because the theorems start from a world in which the pipelines are already registered (workload generation, parameter validation and the
+end-of-run statistics are tied to the code by the correspondence check, not proved) and because amounts are integers of the quantum lattice. -/
 namespace Eudoxia.C08
 open Eudoxia Eudoxia.Prio OpState Extracted
 
@@ -155,39 +162,6 @@ theorem priority_pool_round_built (w w' : World) (st st' : St) (res : List Res) 
 
 /-! ### only suspendable containers are suspended -/
 
-theorem findCtr_of_mem_nodup : ∀ (l : List Ctr) (c : Ctr), c ∈ l → (l.map (·.cid)).Nodup → findCtr l c.cid = some c := by
-  intro l
-  induction l with
-  | nil => intro c h; simp at h
-  | cons x xs ih =>
-    intro c hc hnd
-    simp only [List.map_cons, List.nodup_cons] at hnd
-    unfold findCtr
-    rw [List.find?_cons]
-    rcases List.mem_cons.mp hc with rfl | hc
-    · simp
-    · have : (x.cid == c.cid) = false := by
-        simp only [beq_eq_false_iff_ne, ne_eq]
-        intro e
-        exact hnd.1 (e ▸ List.mem_map.mpr ⟨c, hc, rfl⟩)
-      rw [this]
-      exact ih c hc hnd.2
-
-/-- the executor's `verify_valid_suspend` accepts a list of requests each of which names a suspendable active container (container numbers being
-distinct within the pool — part of the pool invariant `PoolInv`, proved for every reachable world) -/
-theorem verifySuspends_ok (p : Pool) (hnd : (p.active.map (·.cid)).Nodup) : ∀ (l : List Nat),
-    (∀ cid ∈ l, ∃ c ∈ p.active, c.cid = cid ∧ c.canSuspend = true) → verifySuspends p l = .ok () := by
-  intro l
-  induction l with
-  | nil => intro _; rfl
-  | cons x xs ih =>
-    intro h
-    obtain ⟨c, hc, e, hs⟩ := h x (by simp)
-    unfold verifySuspends
-    rw [← e, findCtr_of_mem_nodup _ c hc hnd]
-    simp only [hs, ↓reduceIte]
-    exact ih (fun cid hcid => h cid (List.mem_cons_of_mem _ hcid))
-
 /-- **priority suspends only what the executor accepts** -/
 theorem priority_round_suspensions_accepted (w w' : World) (st st' : St) (res : List Res) (newP : List Nat) (dec : Decision)
     (h : prRound w st res newP = .ok (w', st', dec)) (p : Nat)
@@ -259,6 +233,19 @@ theorem executor_tick_succeeds_when_the_gates_pass (w0 w1 : World) (asgs : List 
     ∃ w2 res, w1.execTick [] asgs = .ok (w2, res) ∧ WorldReady w2 :=
   let ⟨w2, res, h, r, _⟩ := execTick_succeeds_of_gates w0 w1 asgs hr hb hseg hpar hpool hv hcnt; ⟨w2, res, h, r⟩
 
+/-- **… and with suspension requests too**: pools that exist, per pool requests that `verify_valid_suspend` accepts and a batch that `verify_valid_assignment`
+accepts with the right operator count ⇒ the tick succeeds and the world is ready for the next one -/
+theorem executor_tick_with_suspensions_succeeds_when_the_gates_pass (w0 w1 : World) (asgs : List Asg) (sus : List (Nat × Nat))
+    (hr : WorldReady w0) (hb : Built w0 asgs w1) (hseg : ∀ a ∈ asgs, ∀ r ∈ a.ops, w0.store.segsOf r ≠ [])
+    (hpar : ∀ a ∈ asgs, ParentsOK w1.store a.ops) (hsus : ∀ i, ((sus.filter (·.1 == i)).map (·.2)).Nodup)
+    (hpoolA : ∀ a ∈ asgs, a.pool < w1.pools.length) (hpoolS : ∀ x ∈ sus, x.1 < w1.pools.length)
+    (hv : ∀ k p, w1.pools[k]? = some p →
+      ((cmdsFor k sus asgs).susp.isEmpty = true ∨ verifySuspends p (cmdsFor k sus asgs).susp = .ok ()) ∧
+      ((cmdsFor k sus asgs).asgs.isEmpty = true ∨ verifyAssignments w1.cfg p (cmdsFor k sus asgs).asgs = .ok ()))
+    (hcnt : ∀ a ∈ asgs, opCountOk w1.cfg a = true) :
+    ∃ w2 res, w1.execTick sus asgs = .ok (w2, res) ∧ WorldReady w2 :=
+  let ⟨w2, res, h, r, _⟩ := execTick_succeeds_of_gates_susp w0 w1 asgs sus hr hb hseg hpar hsus hpoolA hpoolS hv hcnt; ⟨w2, res, h, r⟩
+
 /-- **the whole run, for one shipped policy.**  The naive scheduler with single-operator containers — which is also the starter scheduler written by
 `eudoxia init` — drives the simulation to its last tick without raising: from a ready world (e.g. a fresh one, `fresh_world_ready`) whose pipelines list
 existing operators once and give each a segment, for every sequence of arrival batches. -/
@@ -305,6 +292,47 @@ theorem priority_single_operator_round_never_raises (w : World) (st : Prio.St) (
 theorem priority_theorem_applies_to_a_concrete_world (arrivals : List (List Nat)) (h : ∀ newP ∈ arrivals, newP.Nodup) :
     ∃ out, Prio.loop (NaiveExample.world false) {} [] arrivals = .ok out :=
   PriorityExample.runs arrivals h
+
+/-- **the whole run, `priority-pool` with multi-operator containers.**  From a world that satisfies `PP.PPInv` (two ready pools without write-outs whose free CPU
+is zero exactly when their free RAM is; well-formed pipelines listed in dependency order; queues holding distinct good jobs; every container and every pending
+result with its record straight) the priority-pool scheduler and the executor run to the last tick without raising — neither the executor, nor the `Assignment`
+constructor, nor the scheduler's own two assertions ("failed container has incomplete operators", "free RAM is zero iff free CPU is zero") — for every sequence
+of arrival batches in which no pipeline arrives twice.  The proof carries, through every phase of the executor tick, what a *failed* result says about the
+operator table: the unfinished suffix of its container is not empty and all FAILED (Proofs/Dead.lean).  With single-operator containers the statement is false
+for the shipped code (known finding D11). -/
+theorem priority_pool_multi_operator_run_never_raises (arrivals : List (List Nat)) (w : World) (st : Prio.St) (cs : List Ctr)
+    (inv : PP.PPInv w st cs arrivals.flatten) :
+    ∃ w' st' cs', PP.loop w st (cs.map mkRes) arrivals = .ok (w', st', cs'.map mkRes) ∧ PP.PPInv w' st' cs' [] :=
+  PP.run_never_raises arrivals w st cs inv
+
+/-- the hypotheses of the priority-pool whole-run theorem are met by a concrete world (the diamond DAG on two pools, its pipeline arriving in the first tick) -/
+theorem priority_pool_theorem_applies_to_a_concrete_world (n : Nat) :
+    ∃ out, PP.loop (NaiveExample.world true) {} [] ([0] :: List.replicate n []) = .ok out :=
+  PoolExample.runs n
+
+/-- **the whole run, `priority` with multi-operator containers — the mode in which it pre-empts.**  From a world that satisfies `PM.PMInv` (ready pools; container
+numbers never re-used; no memory overcommit; well-formed pipelines listed in dependency order; queues holding distinct good jobs, each *all* the unfinished work
+of its pipeline; every running container, every container being written out and every pending result with its record straight; one remembered job per container
+being written out, none for a container whose write-out ended earlier) the priority scheduler and the executor run to the last tick without raising, for every
+sequence of arrival batches in which no pipeline arrives twice.  Along the way: every suspension request names a running container that may be suspended, no
+container is named twice (`verify_valid_suspend` accepts), the job remembered for a suspended container is exactly its unfinished suffix with its old allocation,
+it is re-queued exactly once — in the round after its write-out ended — and never while any of its operators is still SUSPENDING (so the `Assignment`
+constructor accepts the resume), and no pool is oversold. -/
+theorem priority_multi_operator_run_never_raises (arrivals : List (List Nat)) (w : World) (st : Prio.St) (cs js : List Ctr)
+    (inv : PM.PMInv w st cs js arrivals.flatten) :
+    ∃ w' st' cs' js', Prio.loop w st (cs.map mkRes) arrivals = .ok (w', st', cs'.map mkRes) ∧ PM.PMInv w' st' cs' js' [] :=
+  PM.run_never_raises arrivals w st cs js inv
+
+/-- one step of it: a scheduling round of `priority` (multi-operator containers) and the executor tick that follows succeed and re-establish the invariant -/
+theorem priority_multi_operator_tick_never_raises (w : World) (st : Prio.St) (cs js : List Ctr) (newP F : List Nat) (inv : PM.PMInv w st cs js (newP ++ F)) :
+    ∃ w1 st1 dec w2 cs2 js2, prRound w st (cs.map mkRes) newP = .ok (w1, st1, dec) ∧ w1.execTick dec.sus dec.asgs = .ok (w2, cs2.map mkRes) ∧
+      PM.PMInv w2 st1 cs2 js2 F :=
+  PM.pm_tick_never_raises w st cs js newP F inv
+
+/-- the hypotheses of that theorem are met by a concrete world (the diamond DAG on two pools, its pipeline arriving in the first tick) -/
+theorem priority_multi_theorem_applies_to_a_concrete_world (n : Nat) :
+    ∃ out, Prio.loop (NaiveExample.world true) {} [] ([0] :: List.replicate n []) = .ok out :=
+  PrioMultiExample.runs n
 
 /-- a fresh pool is ready (non-vacuity of the hypotheses above) -/
 theorem fresh_pool_ready (cfg : Cfg) (w : Store) (cpus ram : Nat) : PoolReadyF cfg w (Pool.fresh cpus ram) :=
